@@ -77,7 +77,7 @@ def _regen(bdir, gen, tool, src):
     if tool == "bison":
         cmd = ["bison", "-d", "-Wno-yacc", "-Wno-other", "-o", out, srcp]
     else:
-        cmd = ["flex", "-o", out, srcp]
+        cmd = ["flex", "--outfile=" + out, srcp]   # flex takes -oFILE / --outfile=FILE, not "-o FILE"
     r = subprocess.run(cmd, stdout=subprocess.PIPE, stderr=subprocess.STDOUT, text=True)
     if r.returncode != 0:
         raise BuildError("generator failed: %s\n%s" % (" ".join(cmd), r.stdout[-3000:]))
